@@ -1116,6 +1116,21 @@ theorem log_pow_tables :
     Log.ldexp F64.one 10 = F64.ofInt 1024 :=
   ⟨Log.log10_table, Log.pow10_table, Log.pow2_table⟩
 
+/-- **The platform the model mirrors is the platform of the run** (regenerated by the translator, which is built with
+    the same toolchain as the harness): GOARCH is amd64 (where `math.Log` is `log_amd64.s`), the constants
+    `1/Ln10`, `1/Ln2`, `Sqrt2/2` are the model's, and on the probe arguments (a subnormal, the rescaling threshold
+    and its neighbour, powers of two and ten, the largest float; `3^y` up to overflow and down to underflow) the
+    toolchain's `math.Log` / `Log10` / `Log2` / `Pow` return bit for bit what the model computes. -/
+theorem gen_log_platform :
+    Gen.C11.goarch = "amd64" ∧
+    Gen.C11.invLn10Bits = Log.invLn10.bits ∧ Gen.C11.invLn2Bits = Log.invLn2.bits ∧ Gen.C11.hSqrt2Bits = Log.hSqrt2.bits ∧
+    (Gen.C11.logProbes.all fun p => (Log.logAsm (Log.bitsF p.1)).bits == p.2) = true ∧
+    (Gen.C11.log10Probes.all fun p => (Log.log10 (Log.bitsF p.1)).bits == p.2) = true ∧
+    (Gen.C11.log2Probes.all fun p => (Log.log2 (Log.bitsF p.1)).bits == p.2) = true ∧
+    (Gen.C11.pow3Probes.all fun p => (Log.pow (F64.ofInt 3) (Log.bitsF p.1)).map F64.bits == some p.2) = true ∧
+    Gen.C11.logProbes.length = 15 ∧ Gen.C11.pow3Probes.length = 9 := by
+  decide +kernel
+
 /-- **`{pow a b}`**: the leading special cases of `math.Pow` for ALL arguments – `x^±0 = 1` and `1^y = 1` (also for NaN),
     `x^1 = x`, otherwise NaN in gives NaN out. -/
 theorem pow_special_cases (x y : F64) :
